@@ -251,6 +251,7 @@ pub struct Dump {
     pub bal: u128, pub pend: u128, pub allf: u128, pub burned: u128, pub supply: u128, pub counter: u128,
     pub dep: bool, pub wd: bool, pub fl: bool, pub fees: (u128, u128, u128), pub owner: usize,
     pub ab: Vec<u128>, pub lp: Vec<u128>,
+    pub cw20: bool,
 }
 impl Dump {
     pub fn obs(&self) -> Vec<String> {
@@ -396,6 +397,7 @@ impl VaultWorld {
             owner,
             ab: self.accounts.iter().map(|a| self.asset_bal(a)).collect(),
             lp: self.accounts.iter().map(|a| self.lp_bal(a)).collect(),
+            cw20: self.cw20,
         }
     }
     pub fn payback(&self, z: u128) -> Result<(u128, u128, u128, u128), String> {
